@@ -761,6 +761,126 @@ fn case(prop: &str, fmt: Format, seed: u64, idx: u64, root: &Path, name: String,
     CaseRec { op, impl_out, oracle_fail: keep(prop, fails), nontrivial: d.broken.is_none() && !d.tests.is_empty(), tags }
 }
 
+// ───────────────────── expressions that bash continues over scrut's own footer (outside the model) ─────────────────────
+//
+// The integrated model takes the run of every command as given (a COMPLETE command); an expression that ends in `|`,
+// `|&`, `&&`, `||`, a backslash, or inside a quote has no run of its own: bash reads on into the lines scrut puts behind
+// it. These cases are judged by the direct oracle alone (op `unmodelled incomplete …`): whatever the shell makes of
+// the text, a test case whose command printed something (no expectations are written) or ended with a status other
+// than 0 must not be reported as succeeded, and the run must not end with exit status 0.
+
+/// (the command that is meant, complete)
+const INC_CMDS: [&str; 5] = ["sh -c 'echo garbage; exit 7'", "sh -c 'echo garbage >&2; exit 7'", "sh -c 'exit 7'", "echo garbage", "true"];
+/// what is appended to it
+const INC_TAILS: [&str; 5] = [" |", " |&", " &&", " ||", " \\"];
+/// (expression as written, the command that is meant): unterminated quotes
+const INC_QUOTES: [(&str, &str); 5] = [
+    ("sh -c 'echo garbage; exit 7", "sh -c 'echo garbage; exit 7'"),
+    ("sh -c \"echo garbage; exit 7", "sh -c \"echo garbage; exit 7\""),
+    ("sh -c \"echo garbage", "sh -c \"echo garbage\""),
+    ("echo garbage 'open", "echo garbage 'open'"),
+    ("sh -c 'exit 7' \"x", "sh -c 'exit 7' \"x\""),
+];
+const INC_LAYOUTS: [&str; 3] = ["cram", "compat", "compat-stdout"];
+const INC_POSITIONS: [&str; 2] = ["first", "middle"];
+
+fn inc_shapes() -> Vec<(String, String)> {
+    let mut v = vec![];
+    for c in INC_CMDS {
+        for t in INC_TAILS {
+            v.push((format!("{c}{t}"), c.to_string()));
+        }
+    }
+    for (e, c) in INC_QUOTES {
+        v.push((e.to_string(), c.to_string()));
+    }
+    v
+}
+
+fn inc_total() -> u64 {
+    (inc_shapes().len() * INC_LAYOUTS.len() * INC_POSITIONS.len()) as u64
+}
+
+fn inc_op(idx: u64) -> String {
+    let n = inc_shapes().len();
+    let i = idx as usize;
+    format!("unmodelled incomplete {} {} {}", INC_LAYOUTS[(i / n) % INC_LAYOUTS.len()], INC_POSITIONS[i / n / INC_LAYOUTS.len()], i % n)
+}
+
+fn incomplete_case(prop: &str, op: &str, root: &Path, name: String, verbose: bool) -> CaseRec {
+    let f: Vec<&str> = op.split(' ').collect();
+    let shapes = inc_shapes();
+    let (layout, pos) = (f[2], f[3]);
+    let (expr, meant) = shapes[f[4].parse::<usize>().unwrap_or(0).min(shapes.len() - 1)].clone();
+    let fmt = if layout == "cram" { Format::Cram } else { Format::Compat };
+    let dir = root.join(name);
+    let _ = std::fs::remove_dir_all(&dir);
+    std::fs::create_dir_all(dir.join("tmp")).unwrap();
+    // what the command that is meant does in plain bash
+    let r = std::process::Command::new("/bin/bash").arg("-c").arg(&meant).current_dir(&dir).stdin(std::process::Stdio::null()).output().expect("run bash");
+    let (ref_out, ref_err, ref_code) = (r.stdout, r.stderr, r.status.code().unwrap_or(-1));
+    let compared: Vec<u8> = if layout == "compat-stdout" { ref_out.clone() } else { [ref_out.clone(), ref_err.clone()].concat() };
+    let bad = ref_code != 0 || !compared.is_empty();
+    // the document: (a passing test,) the incomplete expression WITHOUT expectations, a passing test
+    let icfg = if layout == "compat-stdout" { " {output_stream: stdout}" } else { "" };
+    let mut tests: Vec<(String, Vec<&str>)> = vec![];
+    if pos == "middle" {
+        tests.push(("echo before".to_string(), vec!["before"]));
+    }
+    let at = tests.len();
+    tests.push((expr.clone(), vec![]));
+    tests.push(("echo ok".to_string(), vec!["ok"]));
+    let mut doc = String::new();
+    if fmt == Format::Compat {
+        doc.push_str("# A document\n\n");
+    }
+    for (k, (e, body)) in tests.iter().enumerate() {
+        match fmt {
+            Format::Cram => {
+                doc.push_str(&format!("T{k}\n  $ {e}\n"));
+                for l in body {
+                    doc.push_str(&format!("  {l}\n"));
+                }
+                doc.push('\n');
+            }
+            Format::Compat => {
+                doc.push_str(&format!("## T{k}\n\n```scrut{icfg}\n$ {e}\n"));
+                for l in body {
+                    doc.push_str(&format!("{l}\n"));
+                }
+                doc.push_str("```\n\n");
+            }
+        }
+    }
+    let doc_path = dir.join(fmt.file());
+    std::fs::write(&doc_path, &doc).unwrap();
+    let ran = run_binary(fmt, &dir, &doc_path);
+    if verbose {
+        println!("document {}:\n{doc}--", doc_path.display());
+        println!("the command that is meant, `{meant}`, in plain bash: stdout {:?} stderr {:?} exit {ref_code}", String::from_utf8_lossy(&ref_out), String::from_utf8_lossy(&ref_err));
+        println!("`{}`: {} (exit status {}; stderr: {})", fmt.command_line(), ran.line, ran.code, short(&ran.stderr, 400));
+    }
+    let _ = std::fs::remove_dir_all(&dir);
+    let mut fails: Vec<(String, String)> = vec![];
+    let describe = |what: &str| format!("{what}; `{}` reported `{}` on document {:?}; in plain bash `{meant}` writes stdout {:?} stderr {:?} and ends with {ref_code}", fmt.command_line(), ran.line, doc, String::from_utf8_lossy(&ref_out), String::from_utf8_lossy(&ref_err));
+    let got: Option<String> = ran.results.as_ref().and_then(|rs| rs.iter().find(|(i, _)| *i == Some(at)).map(|(_, k)| k.clone()));
+    if bad && got.as_deref() == Some("success") {
+        fails.push(("C05:single-script-incomplete-expression-passes".to_string(), describe(&format!("test {at} (`{expr}`, no expectations) is reported as succeeded although its command writes output or does not end with 0"))));
+    }
+    if bad && ran.code == 0 {
+        fails.push(("C20:single-script-incomplete-expression-exit-status".to_string(), describe(&format!("exit status 0 although the command of test {at} (`{expr}`, no expectations) writes output or does not end with 0"))));
+    }
+    let verdict = got.clone().map_or(ran.line.split(' ').next().unwrap_or("").to_string(), |g| g.split(':').next().unwrap_or("").to_string());
+    let tail = if expr.len() > meant.len() { expr[meant.len()..].trim().to_string() } else { "open-quote".to_string() };
+    CaseRec {
+        op: op.to_string(),
+        impl_out: "unmodelled".into(),
+        oracle_fail: keep(prop, fails),
+        nontrivial: bad,
+        tags: vec![format!("incomplete:layout={layout}"), format!("incomplete:position={pos}"), format!("incomplete:tail={tail}"), format!("incomplete:tail={tail}->{verdict}"), format!("incomplete:command-bad={bad}")],
+    }
+}
+
 /// the two streams (C05 / C20), or the Cram one alone (C07)
 pub fn run(ctx: &Ctx, prop: &str) {
     let seed = ctx.seed;
@@ -773,17 +893,35 @@ pub fn run(ctx: &Ctx, prop: &str) {
         ctx.run_stream("e2e-testdoc-cram-compat", n, false, |idx| Some(case(prop, Format::Compat, seed, idx, &root, format!("m{idx}"), false)));
         ctx.note("e2e-testdoc-cram-compat: Markdown documents run with `--cram-compat` (Markdown parser with the Cram expectation maker and default_cram(): combined, CR LF kept; single-script executor): inline configuration written out / on every block (output_stream stderr|stdout, keep_crlf false, skip_document_code 3) / on ONE block (inconsistent configuration, per-test timeout, `detached: false`: exec-error unless consistent by the rule of set_consistent!) / strip_ansi_escaping (without effect); same expectation generators as e2e-testcram; compared with the integrated model op `testdocc`".into());
     }
+    if prop != "C07" {
+        ctx.run_stream("e2e-script-incomplete-expression-exhaustive", inc_total(), true, |idx| Some(incomplete_case(prop, &inc_op(idx), &root, format!("i{idx}"), false)));
+        ctx.note("e2e-script-incomplete-expression-exhaustive: Cram documents, Markdown documents under --cram-compat (combined) and with `{output_stream: stdout}` on every block (separate streams: the `1>&2 echo` divider line is in the script) in which one test case -- the first of two or the middle one of three -- has NO expectations and an expression that bash continues over scrut's footer: `sh -c 'echo garbage; exit 7'`, `sh -c 'echo garbage >&2; exit 7'`, `sh -c 'exit 7'`, `echo garbage`, `true` (control) followed by ` |`, ` |&`, ` &&`, ` ||`, ` \\`, and five expressions that end inside a single / double quote; the test cases around it pass. Real binary; outside the model (a run of its own does not exist for such an expression): direct oracle only -- the command that is meant is run in plain bash, and when it writes output or does not end with 0 the test case must not be reported as succeeded (C05:single-script-incomplete-expression-passes) and the exit status must not be 0 (C20:single-script-incomplete-expression-exit-status)".into());
+    }
     let _ = std::fs::remove_dir_all(&root);
 }
 
 pub fn is_script_op(op: &str) -> bool {
-    op.starts_with("testcram ") || op.starts_with("testdocc ")
+    op.starts_with("testcram ") || op.starts_with("testdocc ") || op.starts_with("unmodelled incomplete ")
 }
 
 /// re-runs a recorded op: a generated case is regenerated from its seed and index and judged by all direct oracles;
 /// an op without a case tag is rewritten to a fresh directory and run again (exit status vs. verdicts only)
 pub fn replay(prop: &str, op: &str) -> bool {
     let parts: Vec<&str> = op.split_whitespace().collect();
+    if op.starts_with("unmodelled incomplete ") {
+        if parts.len() != 5 || !INC_LAYOUTS.contains(&parts[2]) || !INC_POSITIONS.contains(&parts[3]) {
+            eprintln!("replay: malformed `unmodelled incomplete` op");
+            return false;
+        }
+        let root = tmproot("script-replay");
+        std::fs::create_dir_all(&root).unwrap();
+        let rec = incomplete_case(prop, &parts.join(" "), &root, "r".into(), true);
+        let _ = std::fs::remove_dir_all(&root);
+        for (cl, d) in &rec.oracle_fail {
+            println!("oracle-failure {cl}: {}", short(d, 900));
+        }
+        return rec.oracle_fail.is_empty();
+    }
     let fmt = if parts.first() == Some(&"testcram") { Format::Cram } else { Format::Compat };
     if let Some((Ok(seed), Ok(idx))) = parts.get(3).and_then(|c| c.split_once('.')).map(|(a, b)| (a.parse::<u64>(), b.parse::<u64>())) {
         let root = tmproot("script-replay");
